@@ -318,3 +318,44 @@ def loop_programs(rng, bw, n):
             continue
         out.append(a.assemble())
     return out
+
+
+def error_programs(rng, bw, n):
+    """programs mixing bad jump targets (non-JUMPDEST, out of range, inside push data, symbolic, >= 2^32),
+    stack underflow / overflow and gas exhaustion with ordinary code"""
+    out = []
+    for _ in range(n):
+        a = Asm()
+        pieces = rng.randrange(1, 6)
+        for p in range(pieces):
+            kind = rng.randrange(12)
+            jop = rng.choice(["JUMP", "JUMPI"])
+            pre = (lambda: a.push(rng.randrange(2))) if jop == "JUMPI" else (lambda: None)
+            if kind == 0:      # target that is not a JUMPDEST
+                pre(); a.push(rng.randrange(0, 6)).op(jop)
+            elif kind == 1:    # out of range
+                pre(); a.push(rng.choice([0x1000, 0xffff, 2 ** 31, 2 ** 32 - 1])).op(jop)
+            elif kind == 2:    # >= 2^32 with valid low bits
+                a.label("V%d" % p); pre(); a.raw(b"\x64\x01\x00\x00\x00\x00").op(jop)
+            elif kind == 3:    # inside push data: a 0x5b byte that is an immediate
+                a.raw(b"\x61\x5b\x5b").op("POP"); pre(); a.push(len(a.assemble()) - 3).op(jop)
+            elif kind == 4:    # symbolic target
+                pre(); a.op(rng.choice(["CALLER", "CALLVALUE", "CALLDATASIZE"])).op(jop)
+            elif kind == 5:    # stack underflow
+                a.op(rng.choice(["ADD", "POP", "SSTORE", "MSTORE", "DUP1" if False else "SWAP1" if False else "MUL"]))
+            elif kind == 6:    # DUP/SWAP too deep
+                a.push(1).raw([0x80 + rng.randrange(1, 32)])
+            elif kind == 7:    # valid jump over dead code
+                pre(); a.push_label("OK%d" % p).op(jop).op("INVALID").label("OK%d" % p)
+            elif kind == 8:    # ordinary storage code
+                a.push(rng.randrange(8)).op("SLOAD").push(rng.randrange(8)).op("SSTORE")
+            elif kind == 9:    # expensive loop (gas exhaustion with a small gas limit)
+                a.label("G%d" % p).push(0).push(0).op("SSTORE").op("CALLVALUE").push_label("G%d" % p).op("JUMPI")
+            elif kind == 10:   # stack overflow loop
+                a.label("S%d" % p).push(1).push(1).push_label("S%d" % p).op("JUMP")
+            else:
+                a.raw(random_program(rng, bw, n_ops=6, hostile=0.1, loops=False))
+        if rng.random() < 0.6:
+            a.op("STOP")
+        out.append(a.assemble())
+    return out
